@@ -101,8 +101,9 @@ PROPS["C03"] = {
     "outside": "responses with more than 4 data objects or longer cryptograms; non-minimal length octets inside responses (covered by tlv canonicalisation, C16)",
     "assumptions": ["block ciphers are permutations per key (E/D inverse)"],
     "jobs": [
-        {"func": "verifH_C03_constructive", "pkg": "iso7816", "params": {"alg": [0, 1], "shape": [134, 34, 234, 43, 14, 13, 3, 4, 334, 1134, 534, 64, 74, 314, 124, 214], "blocks": 1}, "params_thorough": {"alg": [0, 1, 2, 3], "blocks": [1, 2]}, "unwind": 80, "expect_reach": ["accepted", "rejected"]},
+        {"func": "verifH_C03_constructive", "pkg": "iso7816", "params": {"alg": [0, 1], "shape": [134, 34, 234, 43, 14, 13, 3, 4, 334, 1134, 534, 64, 74, 314, 124, 214, 38, 39, 138, 139, 1341, 343], "blocks": 1}, "params_thorough": {"alg": [0, 1, 2, 3], "blocks": [1, 2]}, "unwind": 80, "expect_reach": ["accepted", "rejected"]},
         {"func": "verifH_C03_unprotected", "pkg": "iso7816", "params": {"alg": [0, 1], "n": [0, 1, 2]}, "unwind": 80, "expect_reach": ["decoded"]},
+        {"func": "verifH_C03_naked_replay", "pkg": "iso7816", "params": {"alg": [0, 1], "nr": [0, 8]}, "unwind": 80, "known_finding": "C03-naked-replay", "expect_reach": ["second-command"]},
     ],
 }
 
